@@ -40,7 +40,7 @@ inductive Forest : List Ev → Prop
 
 /-! ## helper lemmas -/
 
-private theorem setIn_lookup (a : String) (x : Attr) :
+theorem setIn_lookup (a : String) (x : Attr) :
     ∀ attrs : List (String × Attr), attrs.lookup a = some x → Node.setIn a x attrs = attrs := by
   intro attrs
   induction attrs with
@@ -54,7 +54,7 @@ private theorem setIn_lookup (a : String) (x : Attr) :
     | true => simp only [hab] at h; simp_all
     | false => simp only [hab] at h; simp [ih h]
 
-private theorem setAttr_getAttr (n : Node) (a : String) (x : Attr) (h : n.getAttr a = some x) : n.setAttr a x = n := by
+theorem setAttr_getAttr (n : Node) (a : String) (x : Attr) (h : n.getAttr a = some x) : n.setAttr a x = n := by
   cases n with
   | mk k i attrs =>
     simp only [Node.getAttr, Node.attrs] at h
